@@ -1011,11 +1011,11 @@ func genMut(g *hx.Gen, n int) {
 }
 
 func gen(g *hx.Gen) {
-	genEnc(g, g.Count(1000, 40000))
-	genFrag(g, g.Count(1500, 100000))
-	genRecv(g, g.Count(2500, 120000))
-	genConv(g, g.Count(120, 5000))
-	genMut(g, g.Count(800, 100000))
+	genEnc(g, g.Count(1000, 30000))
+	genFrag(g, g.Count(1500, 60000))
+	genRecv(g, g.Count(2500, 80000))
+	genConv(g, g.Count(120, 3000))
+	genMut(g, g.Count(800, 60000))
 }
 
 func main() { hx.Main(hx.Harness{Gen: gen, Exec: exec}) }
